@@ -10,6 +10,7 @@
 //!       merge <L> <k>                   MERGE (:L {k: k})
 //!       setrep <L> <q,q,…>              UNWIND [q,…] AS d MATCH (n:L) SET n.q = d, n.p = toBoolean(d)
 //!                                       (the same slots written once per list element before a failing element)
+//!       mergeset <L> <k> <w>            MERGE (n:L {k: k}) ON MATCH SET n.q = w   (match branch: staged writes, count 0)
 //!       refused <0|1>                   0: syntax error, 1: a read statement sent to the write API
 //! L: 0 = A, 1 = B.   q: t = true, f = false, x = 'x', 1 = 1 (toBoolean(1) is a runtime error).
 //! outputs: `ok` | `err | <category>` | `bad-op`;  dump: one token, the sorted nodes `L.k.q.p` joined by `,`.
@@ -80,6 +81,10 @@ pub fn render(ws: &[&str]) -> Option<String> {
                 items.push(qlit(d)?);
             }
             format!("UNWIND [{}] AS d MATCH (n:{}) SET n.q = d, n.p = toBoolean(d)", items.join(", "), label(l)?)
+        }
+        ["mergeset", l, k, w] => {
+            k.parse::<u32>().ok()?;
+            format!("MERGE (n:{} {{k: {}}}) ON MATCH SET n.q = {}", label(l)?, k, qlit(w)?)
         }
         ["refused", "0"] => "CREATE (".to_string(),
         ["refused", "1"] => "MATCH (n) RETURN n".to_string(),
@@ -207,7 +212,13 @@ impl Gen {
             4..=5 => format!("setp {}", l),
             6 => format!("setw {} {} {}", l, rng.pick(&["t", "f", "x", "1"]), rng.pick(&["t", "f", "x", "1"])),
             7 => format!("del {}", l),
-            8 => format!("merge {} {}", l, 1 + rng.below(self.next_k as u64 + 2)),
+            8 => {
+                if rng.chance(1, 2) {
+                    format!("merge {} {}", l, 1 + rng.below(self.next_k as u64 + 2))
+                } else {
+                    format!("mergeset {} {} {}", l, 1 + rng.below(self.next_k as u64 + 2), rng.pick(&["t", "f", "x"]))
+                }
+            }
             9 => {
                 // the same property slots written several times, the failing element (1) last, in the middle or absent
                 let n = 2 + rng.below(3);
